@@ -174,7 +174,17 @@ HandleElementResult SaslManager::handleElement(const QDomElement &el)
         return Rejected;
     }
 
-    if (Success::fromDom(el)) {
+    if (auto success = Success::fromDom(el)) {
+        // The final message of the server (e.g. the SCRAM server signature) may come with the
+        // success. The login is not successful before the server has authenticated itself.
+        if (!m_saslClient->isFinished() &&
+            (!m_saslClient->respond(success->additionalData) || !m_saslClient->isFinished())) {
+            finish(AuthError {
+                u"Server did not authenticate itself (invalid or missing final SASL message)"_s,
+                AuthenticationError { AuthenticationError::ProcessingError, {}, {} },
+            });
+            return Finished;
+        }
         finish(QXmpp::Success());
         return Finished;
     } else if (auto challenge = Challenge::fromDom(el)) {
@@ -275,6 +285,16 @@ HandleElementResult Sasl2Manager::handleElement(const QDomElement &el)
             return Finished;
         }
     } else if (auto success = Success::fromDom(el)) {
+        // The final message of the server (e.g. the SCRAM server signature) comes with the
+        // success. The login is not successful before the server has authenticated itself.
+        if (!m_state->sasl->isFinished() &&
+            (!m_state->sasl->respond(success->additionalData.value_or(QByteArray())) || !m_state->sasl->isFinished())) {
+            finish(AuthError {
+                u"Server did not authenticate itself (invalid or missing final SASL message)"_s,
+                AuthenticationError { AuthenticationError::ProcessingError, {}, {} },
+            });
+            return Finished;
+        }
         finish(std::move(*success));
         return Finished;
     } else if (auto failure = Failure::fromDom(el)) {
